@@ -182,7 +182,7 @@ Definition mask_snap (m : pmask) (s : snapshot) : snapshot :=
 Definition mask_ostep (m : pmask) (o : ostep) : ostep :=
   mkOstep (if pm_resp m then mask_resp m (os_resp o) else ROk)
           (if pm_live m then map (mask_fevent m) (os_live o) else [])
-          (if pm_order m then map (mask_fevent m) (os_dump o) else [])
+          (if pm_order m || pm_del m then map (mask_fevent m) (os_dump o) else [])
           (mask_snap m (os_snap o)).
 
 Definition step_relevant := sop -> bool.
